@@ -117,6 +117,37 @@ def exotic_cases():
             if ik == 'nested-generic' and sk == 'all':
                 pass
             out.append(Case('C01|exotic|%s|%s' % (ik, sk), it.format(A=a, VD='#[educe(Default)] ' if 'Default' in a else ''), {'item': ik, 'traits': sk}, expect='accept', run=False, depth=2))
+    # dynamically sized structs (the last field has a `?Sized` type): every trait that does not need `Self: Sized`, with the attribute forms that touch the tail
+    un_items = {
+        'generic': 'pub struct Ty<T: ?Sized> {{ {A0}pub a: u8, {A1}pub tail: T }}',
+        'generic-tuple': 'pub struct Ty<T: ?Sized>({A0}pub u8, {A1}pub T);',
+        'where': 'pub struct Ty<T> where T: ?Sized {{ {A0}pub a: u8, {A1}pub tail: T }}',
+        'slice': 'pub struct Ty {{ {A0}pub a: u8, {A1}pub tail: [u8] }}',
+        'str-tuple': 'pub struct Ty({A0}pub u8, {A1}pub str);',
+        'dyn': 'pub struct Ty {{ {A0}pub a: u8, {A1}pub tail: dyn ::core::fmt::Debug }}',
+        'nested': 'pub struct Ty<T: ?Sized> {{ {A0}pub a: u8, {A1}pub tail: (u8, T) }}',
+    }
+    un_sets = {
+        'Debug': ('Debug', '', ''), 'Debug-noname': ('Debug(name = false)', '', ''), 'Debug-flip': ('Debug(named_field = {FLIP})', '', ''), 'Debug-rename': ('Debug(name = Other)', 'Debug(name = first)', 'Debug(name = last)'),
+        'Debug-m0': ('Debug', 'Debug(method(fmt_any))', ''), 'Debug-m1': ('Debug', '', 'Debug(method(fmt_any))'), 'Debug-m01': ('Debug(name = false)', 'Debug(method(fmt_any))', 'Debug(method(fmt_any))'),
+        'Debug-i1': ('Debug', '', 'Debug(ignore)'), 'Debug-unsafe-bound': ('Debug(bound(*))', '', ''),
+        'PartialEq': ('PartialEq, Eq', '', ''), 'PartialEq-m1': ('PartialEq', '', 'PartialEq(method(eq_any))'), 'Ord': ('PartialEq, Eq, PartialOrd, Ord', 'Ord(rank = 1)', 'Ord(rank = 0)'),
+        'PartialOrd': ('PartialEq, PartialOrd', '', 'PartialOrd(method(pcmp_any))'), 'Hash': ('Hash', '', ''), 'Hash-m1': ('Hash', 'Hash(ignore)', 'Hash(method(hash_any))'),
+        'Deref': ('Deref, DerefMut', '', 'Deref, DerefMut'), 'most': ('Debug, PartialEq, Eq, PartialOrd, Ord, Hash, Deref', '', 'Deref'),
+    }
+    for ik, it in un_items.items():
+        for sk, (tl, a0, a1) in un_sets.items():
+            if ik == 'dyn' and not sk.startswith('Debug'):
+                continue
+            if ik == 'dyn' and sk == 'Debug-unsafe-bound':
+                continue
+            if ik == 'nested' and sk == 'Debug-unsafe-bound':
+                continue        # `T: Debug` does not make `(u8, T)` Debug for an unsized T: the user's own bound would be insufficient
+            if 'tuple' in ik and sk == 'Debug-rename':
+                continue        # field names of tuple structs cannot be renamed
+            tl_ = tl.replace('{FLIP}', 'false' if 'tuple' not in ik else 'true')
+            src = '#[derive(Educe)]\n#[educe(%s)]\n%s\n' % (tl_, it.format(A0='#[educe(%s)] ' % a0 if a0 else '', A1='#[educe(%s)] ' % a1 if a1 else ''))
+            out.append(Case('C01|unsized|%s|%s' % (ik, sk), src, {'item': ik, 'traits': tl_, 'field_attributes': [a0, a1]}, expect='accept', run=False, depth=2))
     # every bound mode of every trait on types whose generics mix lifetimes, type and const parameters (a bound mode must only ever speak about type parameters)
     gshapes = {
         'gs': "pub struct Ty<'a, T: Copy, const CN: usize, U = u8> { pub a: &'a T, pub b: [U; CN], {F}pub c: u8 }",
